@@ -308,3 +308,28 @@ def waiter_guard(ctx: Ctx, rule: str, instance: str):
         wn = u(w[0][1]["W"]) if w else f"{t}._fut_waiter"
         ctx.require_at(rule, deliver, call, [[f"not isinstance({wn}, asyncio.Future)"], [f"not {wn}.done()"]],
                        instance=instance, what="task.cancel")
+
+
+# ----------------------------------------------------------------------------- argument validation dominates every effect
+def validated_first(ctx: Ctx, rule: str, f: Func, bad_fact: str, what: str):
+    """the guard `if <bad_fact>: raise` dominates everything the function does: every await, every return and every call on
+    `self` is reached only with the fact refuted (robust against statements being added before the guard that do nothing)"""
+    rz = [r for r in own_walk(f.node) if isinstance(r, ast.Raise)]
+    guarded = []
+    for r in rz:
+        fa = ctx.facts_at(f, r)
+        if fa and all(F(bad_fact) in x for x in fa):
+            guarded.append(r)
+    if not ctx.need(rule, f, f"`if {bad_fact}: raise ...`", len(guarded), 1):
+        return
+    neg = F("not " + bad_fact)
+    sites = [n for n in own_walk(f.node) if isinstance(n, (ast.Await, ast.Return))]
+    sites += [n for n in own_walk(f.node) if isinstance(n, ast.Call) and isinstance(n.func, ast.Attribute) and ast.unparse(n.func).startswith("self.")]
+    bad = None
+    for n in sites:
+        st = stmt_of(n)
+        fa = ctx.facts_at(f, st)
+        if fa and not all(neg in x for x in fa):
+            bad = st
+            break
+    ctx.ob(rule, f, what, bad is None, node=bad, detail="" if bad is None else f"`{norm(bad)}` is reachable without `{bad_fact}` having been rejected", by=(f"not {bad_fact} at every await/return/self-call",))
